@@ -44,6 +44,7 @@
 #include "utils.h"
 #include "valueflow.h"
 #include "version.h"
+#include "verif_trace.h"
 
 #ifdef HAVE_RULES
 #include "regex.h"
@@ -163,6 +164,11 @@ private:
             return;
         }
 
+        VERIF_EVT("Raw", verif::msgKey(msg));
+#ifdef DANMAR_CPPCHECK_VERIF
+        if (!mSettings.library.reportErrors(msg.file0))
+            VERIF_EVT("LibraryDrop", verif::msgKey(msg));
+#endif
         if (!mSettings.library.reportErrors(msg.file0))
             return;
 
@@ -201,12 +207,19 @@ private:
 
         // TODO: there should be no need for the verbose and default messages here
         std::string errmsg = msg.toString(mSettings.verbose, mSettings.templateFormat, mSettings.templateLocation);
+#ifdef DANMAR_CPPCHECK_VERIF
+        VERIF_EVT("Gate", verif::msgKey(msg) + verif::kb("suppressed", suppressed) + verif::kv("fk", std::hash<std::string>{}(errmsg)) + verif::kb("empty", errmsg.empty()));
+#endif
         if (errmsg.empty())
             return;
 
         // Alert only about unique errors.
         // This makes sure the errors of a single check() call are unique.
         // TODO: get rid of this? This is forwarded to another ErrorLogger which is also doing this
+#ifdef DANMAR_CPPCHECK_VERIF
+        if (!mSettings.emitDuplicates && mErrorList.count(errmsg) != 0)
+            VERIF_EVT("LocalDup", verif::msgKey(msg));
+#endif
         if (!mSettings.emitDuplicates && !mErrorList.emplace(std::move(errmsg)).second)
             return;
 
@@ -218,6 +231,7 @@ private:
 
         if (!mSuppressions.nofail.isSuppressed(errorMessage) && !mSuppressions.nomsg.isSuppressed(errorMessage)) {
             mExitCode = 1;
+            VERIF_EVT("ExitFlag", verif::msgKey(msg));
         }
 
         std::string remark;
@@ -231,6 +245,8 @@ private:
                 break;
             }
         }
+
+        VERIF_EVT("Forward", verif::msgKey(msg) + verif::kb("remark", !remark.empty()));
 
         if (!remark.empty()) {
             ErrorMessage msg2(msg);
@@ -469,6 +485,7 @@ static std::vector<picojson::value> executeAddon(const AddonInfo &addonInfo,
 
     std::string result;
     if (const int exitcode = executeCommand(pythonExe, split(args), "2>&1", result)) {
+        VERIF_EVT("AddonFail", verif::kv("addon", addonInfo.name) + verif::kv("exitcode", exitcode));
         std::string message("Failed to execute addon '" + addonInfo.name + "' - exitcode is " + std::to_string(exitcode));
         std::string details = pythonExe + " " + args;
         if (result.size() > 2) {
@@ -487,6 +504,23 @@ static std::vector<picojson::value> executeAddon(const AddonInfo &addonInfo,
     std::istringstream istr(result);
     std::string line;
     while (std::getline(istr, line)) {
+#ifdef DANMAR_CPPCHECK_VERIF
+        {
+            const char* kind = "json";
+            picojson::value vres;
+            if (line.empty())
+                kind = "empty";
+            else if (startsWith(line,"Checking "))
+                kind = "checking";
+            else if (line[0] != '{')
+                kind = "text";
+            else if (!picojson::parse(vres, line).empty())
+                kind = "badJson";
+            else if (!vres.is<picojson::object>())
+                kind = "notObject";
+            VERIF_EVT("AddonLine", verif::kv("addon", addonInfo.name) + verif::kv("kind", kind));
+        }
+#endif
         // TODO: also bail out?
         if (line.empty()) {
             //std::cout << "addon '" << addonInfo.name <<  "' result contains empty line" << std::endl;
@@ -921,6 +955,17 @@ unsigned int CppCheck::checkInternal(const FileWithDetails& file, const std::str
 
     mLogger->resetExitCode();
 
+    VERIF_CTX(file.spath());
+    VERIF_EVT("CheckBegin", verif::kv("file", file.spath()) + verif::kv("cfg", cfgname) + verif::kv("lists", verif::addr(&mSuppressions.nomsg) + "," + verif::addr(&mSuppressions.nofail)) + verif::kb("global", mUseGlobalSuppressions));
+#ifdef DANMAR_CPPCHECK_VERIF
+    struct VerifCheckEnd {
+        const std::string& f;
+        const std::unique_ptr<CppCheckLogger>& l;
+        ~VerifCheckEnd() {
+            VERIF_EVT("CheckEnd", verif::kv("file", f) + verif::kv("exit", l->exitcode()));
+        }
+    } verifCheckEnd{file.spath(), mLogger};
+#endif
     if (Settings::terminated())
         return mLogger->exitcode();
 
@@ -1028,6 +1073,7 @@ unsigned int CppCheck::checkInternal(const FileWithDetails& file, const std::str
             const std::size_t hash = calculateHash(preprocessor, file.spath());
             std::list<ErrorMessage> errors;
             if (!analyzerInformation->analyzeFile(mSettings.buildDir, file.spath(), cfgname, file.fsFileId(), hash, errors, mSettings.debugainfo)) {
+                VERIF_EVT("CacheHit", verif::kv("file", file.spath()) + verif::kv("hash", hash) + verif::kv("n", static_cast<long>(errors.size())));
                 while (!errors.empty()) {
                     mErrorLogger.reportErr(errors.front());
                     errors.pop_front();
@@ -1035,6 +1081,7 @@ unsigned int CppCheck::checkInternal(const FileWithDetails& file, const std::str
                 mLogger->setAnalyzerInfo(nullptr);
                 return mLogger->exitcode();  // known results => no need to reanalyze file
             }
+            VERIF_EVT("CacheMiss", verif::kv("file", file.spath()) + verif::kv("hash", hash));
         }
 
         // Get directives
@@ -1128,6 +1175,8 @@ unsigned int CppCheck::checkInternal(const FileWithDetails& file, const std::str
             } else {
                 currentConfig = currCfg;
             }
+
+            VERIF_EVT("Config", verif::kv("file", file.spath()) + verif::kv("cfg", currentConfig) + verif::kv("raw", currCfg));
 
             if (mSettings.preprocessOnly) {
                 std::string codeWithoutCfg;
@@ -1231,6 +1280,7 @@ unsigned int CppCheck::checkInternal(const FileWithDetails& file, const std::str
                 if (maxConfigs > 1) {
                     const std::size_t hash = tokenizer.list.calculateHash();
                     if (hashes.find(hash) != hashes.end()) {
+                        VERIF_EVT("HashSkip", verif::kv("file", file.spath()) + verif::kv("cfg", currentConfig));
                         if (mSettings.debugwarnings)
                             purgedConfigurationMessage(file.spath(), currentConfig);
                         continue;
@@ -1238,6 +1288,7 @@ unsigned int CppCheck::checkInternal(const FileWithDetails& file, const std::str
                     hashes.insert(hash);
                 }
 
+                VERIF_EVT("ConfigChecked", verif::kv("file", file.spath()) + verif::kv("cfg", currentConfig));
                 // Check normal tokens
                 checkNormalTokens(tokenizer, analyzerInformation.get(), currentConfig);
             } catch (const InternalError &e) {
@@ -1816,6 +1867,10 @@ void CppCheck::analyseClangTidy(const FileSettings &fileSettings)
 bool CppCheck::analyseWholeProgram()
 {
     bool errors = false;
+    VERIF_EVT("WpMemBegin", "");
+#ifdef DANMAR_CPPCHECK_VERIF
+    struct VerifWpEnd { ~VerifWpEnd() { VERIF_EVT("WpMemEnd", ""); } } verifWpEnd;
+#endif
 
     if (!Settings::unusedFunctionOnly()) {
         // Analyse the tokens
@@ -1843,6 +1898,10 @@ bool CppCheck::analyseWholeProgram()
 
 unsigned int CppCheck::analyseWholeProgram(const std::string &buildDir, const std::list<FileWithDetails> &files, const std::list<FileSettings>& fileSettings, const std::string& ctuInfo)
 {
+    VERIF_EVT("WpDirBegin", verif::kb("buildDir", !buildDir.empty()));
+#ifdef DANMAR_CPPCHECK_VERIF
+    struct VerifWpEnd { ~VerifWpEnd() { VERIF_EVT("WpDirEnd", ""); } } verifWpEnd;
+#endif
     if (mSettings.checks.isEnabled(Checks::unusedFunction))
         CheckUnusedFunctions::analyseWholeProgram(mSettings, mErrorLogger, buildDir);
 
